@@ -25,47 +25,158 @@ fn content_tape<const N: usize>(items: &[Item; N], n: usize) -> Tape {
     t
 }
 
+#[cfg(not(feature = "verif_deep"))]
 const N_ITEMS: usize = 2;
+#[cfg(feature = "verif_deep")]
+const N_ITEMS: usize = 3;
 
-#[kani::proof]
-#[kani::unwind(8)]
-fn c08_empty_reply() {
-    use_reply_tables();
-    register_error_macros();
-    let items: [Item; N_ITEMS] = [Item::any(); N_ITEMS].map(|_| Item::any());
-    let n: usize = kani::any();
-    kani::assume(n <= N_ITEMS);
-    tape::register(0, content_tape(&items, n));
-    let mut reader = reader_for(0);
-    let start = BytesStart::from_id(n::RPC_REPLY);
-    let res = EmptyReply::read_xml(&mut reader, &start);
-    let mut has_error = false;
-    let mut n_rpc_errors = 0;
-    let mut has_ok = false;
+use crate::message::rpc::error::verif_error as ve;
+
+/// What the reply grammar says about a sequence of items.
+struct Facts {
+    has_error_sev_error: bool,
+    n_rpc_errors: usize,
+    sev: [u8; N_ITEMS],
+    has_ok: bool,
+    has_data: bool,
+}
+
+fn facts(items: &[Item; N_ITEMS], n: usize) -> Facts {
+    let mut f = Facts { has_error_sev_error: false, n_rpc_errors: 0, sev: [0; N_ITEMS], has_ok: false, has_data: false };
     let mut i = 0;
     while i < N_ITEMS {
         if i < n {
-            has_error |= items[i].is_error_severity_error();
+            f.has_error_sev_error |= items[i].is_error_severity_error();
             if items[i].is_rpc_error() {
-                n_rpc_errors += 1;
+                f.sev[f.n_rpc_errors] = if items[i] == Item::ErrWarning { ve::SEV_WARNING } else { ve::SEV_ERROR };
+                f.n_rpc_errors += 1;
             }
-            has_ok |= items[i] == Item::Ok || items[i] == Item::OkPair;
+            f.has_ok |= items[i] == Item::Ok || items[i] == Item::OkPair;
+            f.has_data |= items[i] == Item::Data;
         }
         i += 1;
     }
+    f
+}
+
+fn stubbed_content_tape(items: &[Item; N_ITEMS], n: usize) -> Tape {
+    let mut t = Tape::EMPTY;
+    let mut i = 0;
+    while i < N_ITEMS {
+        if i < n {
+            push_item_stubbed(&mut t, items[i]);
+        }
+        i += 1;
+    }
+    reply_close(&mut t);
+    t
+}
+
+fn errs_match(errs: &Errors, f: &Facts) -> bool {
+    if errs.len() != f.n_rpc_errors {
+        return false;
+    }
+    let mut i = 0;
+    let mut ok = true;
+    while i < N_ITEMS {
+        if i < f.n_rpc_errors {
+            ok &= ve::nth_severity(errs, i) == Some(f.sev[i]);
+        }
+        i += 1;
+    }
+    ok
+}
+
+fn any_items() -> ([Item; N_ITEMS], usize) {
+    let items: [Item; N_ITEMS] = [Item::Ok; N_ITEMS].map(|_| Item::any());
+    let n: usize = kani::any();
+    kani::assume(n <= N_ITEMS);
+    (items, n)
+}
+
+/// C08, `EmptyReply` (close-session, edit-config, lock, commit, ...): every reply of up to 3
+/// grammar items.
+#[kani::proof]
+#[kani::unwind(10)]
+#[kani::stub(<crate::message::rpc::Error as crate::message::ReadXml>::read_xml, crate::message::rpc::error::verif_error::stub_read_xml)]
+fn c08_empty_reply() {
+    use_reply_tables();
+    let (items, n) = any_items();
+    tape::register(0, stubbed_content_tape(&items, n));
+    let mut reader = reader_for(0);
+    let start = BytesStart::from_id(n::RPC_REPLY);
+    let res = EmptyReply::read_xml(&mut reader, &start);
+    let f = facts(&items, n);
     match &res {
         Ok(EmptyReply::Ok) => {
-            assert!(!has_error, "C08: reply with rpc-error(error) reported as success");
-            assert!(has_ok, "C08: success without <ok/>");
+            assert!(!f.has_error_sev_error, "C08 EmptyReply: a reply carrying rpc-error(error) was reported as success");
+            assert!(f.has_ok, "C08 EmptyReply: success reported without <ok/>");
         }
         Ok(EmptyReply::Errs(errs)) => {
-            assert!(errs.len() == n_rpc_errors, "C08: reported errors differ from the reply's");
+            assert!(errs_match(errs, &f), "C08 EmptyReply: reported errors are not exactly the reply's rpc-errors, in order");
         }
         Err(_) => {}
     }
     kani::cover!(matches!(res, Ok(EmptyReply::Ok)), "some reply is Ok");
-    kani::cover!(matches!(res, Ok(EmptyReply::Errs(_))), "some reply is Errs");
+    kani::cover!(matches!(res, Ok(EmptyReply::Errs(_))) && f.n_rpc_errors == 2, "some reply carries two errors");
+    kani::cover!(matches!(res, Ok(EmptyReply::Errs(_))) && f.sev[0] == ve::SEV_WARNING, "a warning is reported as an error list");
     kani::cover!(res.is_err(), "some reply is a read error");
+    std::mem::forget(res);
+}
+
+/// C08, `DataReply<Opaque>` (get, get-config).
+#[kani::proof]
+#[kani::unwind(10)]
+#[kani::stub(<crate::message::rpc::Error as crate::message::ReadXml>::read_xml, crate::message::rpc::error::verif_error::stub_read_xml)]
+fn c08_data_reply() {
+    use crate::message::rpc::operation::Opaque;
+    use_reply_tables();
+    let (items, n) = any_items();
+    tape::register(0, stubbed_content_tape(&items, n));
+    let mut reader = reader_for(0);
+    let start = BytesStart::from_id(n::RPC_REPLY);
+    let res = DataReply::<Opaque>::read_xml(&mut reader, &start);
+    let f = facts(&items, n);
+    match &res {
+        Ok(DataReply::Data(_)) => {
+            assert!(!f.has_error_sev_error, "C08 DataReply: a reply carrying rpc-error(error) was reported as success");
+            assert!(f.has_data, "C08 DataReply: success reported without <data>");
+        }
+        Ok(DataReply::Errs(errs)) => {
+            assert!(errs_match(errs, &f), "C08 DataReply: reported errors are not exactly the reply's rpc-errors, in order");
+        }
+        Err(_) => {}
+    }
+    kani::cover!(matches!(res, Ok(DataReply::Data(_))), "some reply is Data");
+    kani::cover!(matches!(res, Ok(DataReply::Errs(_))), "some reply is Errs");
+    std::mem::forget(res);
+}
+
+/// C08, `BareReply` (open-/close-/lock-/unlock-configuration): success = empty reply.
+#[cfg(feature = "junos")]
+#[kani::proof]
+#[kani::unwind(10)]
+#[kani::stub(<crate::message::rpc::Error as crate::message::ReadXml>::read_xml, crate::message::rpc::error::verif_error::stub_read_xml)]
+fn c08_bare_reply() {
+    use crate::message::rpc::operation::junos::BareReply;
+    use_reply_tables();
+    let (items, n) = any_items();
+    tape::register(0, stubbed_content_tape(&items, n));
+    let mut reader = reader_for(0);
+    let start = BytesStart::from_id(n::RPC_REPLY);
+    let res = BareReply::read_xml(&mut reader, &start);
+    let f = facts(&items, n);
+    match &res {
+        Ok(BareReply::Ok) => {
+            assert!(f.n_rpc_errors == 0, "C08 BareReply: a reply carrying an rpc-error was reported as success");
+        }
+        Ok(BareReply::Errs(errs)) => {
+            assert!(errs_match(errs, &f), "C08 BareReply: reported errors are not exactly the reply's rpc-errors, in order");
+        }
+        Err(_) => {}
+    }
+    kani::cover!(matches!(res, Ok(BareReply::Ok)), "some reply is Ok");
+    kani::cover!(matches!(res, Ok(BareReply::Errs(_))), "some reply is Errs");
     std::mem::forget(res);
 }
 
@@ -75,3 +186,22 @@ fn cal_nothing() {
     assert!(x as u32 + 1 > 0);
 }
 
+
+// ---- constructors for sibling harness modules (private fields of this module) ----------------
+
+pub(crate) fn message_id(n: usize) -> MessageId {
+    MessageId(n)
+}
+
+pub(crate) fn message_id_value(m: MessageId) -> usize {
+    m.0
+}
+
+/// A parked reply as `PartialReply::recv` would have produced it for the tape in `slot`.
+pub(crate) fn partial_reply(id: usize, slot: u8) -> PartialReply {
+    PartialReply { message_id: MessageId(id), buf: tape::input_for(slot).into() }
+}
+
+pub(crate) fn partial_reply_id(p: &PartialReply) -> usize {
+    p.message_id.0
+}
